@@ -120,6 +120,23 @@ CHECKS = {
              'wakes and removes due minima and stops at the first non-due one; next_expiration = peek_min expiry; '
              'entry comparisons are self.expiry vs other.expiry; saturating deadline arithmetic.',
         note='That peek_min is the true minimum (heap order) is assumed (C20).', ref='5-C15'),
+    'C17': dict(
+        technique='path-sensitive return-correlation analysis over MIR (return shape vs final field value)',
+        text='On every MIR path of all 14 poll/poll_next bodies: Ready => handle None, Pending => handle Some; every '
+             'is_terminated is is_none() of that same field (or the stream flag); the handle is checked before any '
+             'call into the primitive and the None case panics; cancel() clears the handle; streams latch '
+             'end-of-stream exactly and build their inner future with receive().',
+        note='Calls into the primitive through dyn are opaque here (their results are only correlated, not '
+             'interpreted).', ref='5-C17'),
+    'C18': dict(
+        technique='call-graph effect analysis over resolved callees (who-may-allocate), no_std compile witness, '
+                  'path-sensitive bound check for FixedHeapBuf',
+        text='The no_std configuration has no alloc/std callee at all; in every configuration each call into '
+             'alloc/std is classified by a frozen table (unknown => allocating) and allocating calls - transitively '
+             'through the crate\'s call graph - occur only in constructors (no self receiver, returns a crate type), '
+             'GrowingHeapBuf::push (stated exception) and the capacity-bounded FixedHeapBuf::push.',
+        note='User code (wakers, payloads, user buffers, clocks) and the lock type\'s internals are outside the '
+             'crate; dropping the last Arc handle counts as destruction.', ref='5-C18'),
 }
 
 
